@@ -137,6 +137,20 @@ def rename_history(rng, x):
             OLD_VALUES.append(old)
         except ValueError:
             pass
+    if x.name == "" and rng.random() < 0.5:
+        # the element named "" (a legal name) gets a real name: afterwards nothing in its scope answers to ""
+        try:
+            x.name = "formerly_empty_%d" % rng.randrange(100000)
+        except ValueError:
+            pass
+    if x.name and not isinstance(x, sdn.Library) and rng.random() < 0.04:
+        # ... or it was called "" for a while
+        final = x.name
+        try:
+            x.name = ""
+            x.name = final
+        except ValueError:
+            pass
     if x.name and rng.random() < 0.2:
         final = x.name
         old = "was_%s_%d" % (final[:6], rng.randrange(1000))
@@ -219,7 +233,7 @@ def _twins(rng, n):
                 if not named or mk is None or rng.random() < 0.6:
                     continue
                 x = rng.choice(named)
-                for nm in rng.sample([x.name.swapcase(), x.name.upper(), x.name.lower(), x.name + " ", " " + x.name, x.name.rstrip() + "  "], 2):
+                for nm in rng.sample([x.name.swapcase(), x.name.upper(), x.name.lower(), x.name + " ", " " + x.name, x.name.rstrip() + "  ", "", ""], 2):
                     if nm != x.name and not any(y.name == nm for y in coll):
                         try:
                             mk(nm, x)
@@ -313,10 +327,17 @@ class Checker:
             return x.name
         return x[key] if key in x else ""
 
-    def patterns(self, values, key, hier):
+    def patterns(self, values, key, hier, carry_all=False):
         vals = sorted(set(v for v in values if isinstance(v, str) and v))
+        # the empty string is a name like any other (and the empty pattern matches nothing else): asked whenever every element
+        # of the unfiltered result carries the key (what an element WITHOUT a name answers to is not C13's business)
+        values = list(values)
+        empty = []
+        if carry_all and values and all(isinstance(v, str) for v in values) and ("" in values or self.r.random() < 0.5):
+            empty = [("", True, False, "exact-empty"), ("", self.r.random() < 0.5, True, "regex-empty"), ("", False, False, "nocase-exact-empty")]
+            self.ctx.count("empty_patterns_asked")
         if not vals:
-            return []
+            return empty
         a = self.r.choice(vals)
         b = self.r.choice(vals)
         out = [(a, True, False, "exact"), (a.swapcase(), True, False, "exact-caseswapped"),
@@ -338,7 +359,7 @@ class Checker:
         if "[" not in a:
             out += [(a.swapcase(), False, False, "nocase-exact"), (a[:1] + "*", True, False, "glob-prefix"), (a[:1].swapcase() + "*", False, False, "glob-prefix-nocase"),
                     (a[:-1] + "?", True, False, "glob-q"), ("*" + b[-1:], False, False, "glob-suffix-nocase")]
-        return out
+        return out + empty
 
     def run(self, fname, f, root_label, root, opts, key, hier):
         ctx = self.ctx
@@ -359,7 +380,7 @@ class Checker:
         if len(set(map(id, U))) != len(U):
             return self.fail("R0-duplicates-unfiltered:%s:%s" % (fname, root_label), "%s returns an element twice (%d results, %d distinct)" % (tag, len(U), len(set(map(id, U)))))
         k_eff = None if hier else (key or ".NAME")
-        pats = self.patterns([self.value(x, k_eff) for x in U], k_eff, hier)
+        pats = self.patterns([self.value(x, k_eff) for x in U], k_eff, hier, hier or all(k_eff in x for x in U))
         me = sys.modules[__name__]
         if hier and (root_label not in ("Netlist", "HRef") or opts.get("selection", S.INSIDE) is not S.INSIDE or
                      (root_label == "HRef" and not isinstance(root.item, sdn.Instance))) and \
